@@ -97,6 +97,16 @@ def _run_one(v: Dict[str, Any], prop: str, repo: str) -> Dict[str, Any]:
             shutil.copytree(os.path.join(repo, "tests"), os.path.join(tmp, "tests"), ignore=shutil.ignore_patterns("__pycache__", "*.nbi", "*.nbc"))
         with open(os.path.join(tmp, v["file"]), "w", encoding="utf-8") as f:
             f.write(new)
+        for extra in v.get("also", []):  # edits in further files (a change with two cooperating sites)
+            with open(os.path.join(tmp, extra["file"]), encoding="utf-8") as f:
+                src2 = f.read()
+            new2 = _apply(src2, extra)
+            if new2 is None:
+                rec["verdict"] = "stale"
+                return rec
+            compile(new2, extra["file"], "exec")
+            with open(os.path.join(tmp, extra["file"]), "w", encoding="utf-8") as f:
+                f.write(new2)
         env = dict(os.environ)
         env["NUCSVERIF_OUT"] = os.path.join(tmp, "out")
         env["PYTHONPATH"] = VERIF
